@@ -281,7 +281,7 @@ func dedupSchema(d *xDoc) (removed []string) {
 
 func main() {
 	c := vk.Init("C12")
-	c.Rule("programs = schemas run through cmd/fixgen built from the working tree: the two shipped schemas (source/fix44.xml; generator/testdata/fix.4.4.xml with its deliberate duplicate removed) and schemas derived by a seeded mutator (remove/reorder/add/rename/renumber members and fields, remove messages, toggle required, change a type's cast, introduce duplicate field numbers or message types, add a repeating group at nesting depth 3; six fixed cast changes that cover Raw and Time), each with a relative, nested or absolute output directory. Per accepted schema three stages: (1) go build of the emitted package; (2) every constant, constructor signature, accessor signature, accessor item index and member list read back with go/parser and compared with the harness's own XML reader; (3) a behavioural driver derived from the XML (not from the emitted code) executed against the compiled package: each setter puts exactly its own tag=value on the wire, getters return it, all-populated wire order = schema order, populating constructors carry exactly the required members, group AddEntry/Entries round-trip, BeginString/MsgType. Plus byte-identical regeneration (also into a directory that already holds the reference generation, with a schema that shortens files; also 24 generations of a schema in which two components declare a group of the same name with different members), identical output across output directories (also when the generator is used as a library: one parsed schema object generated from three times with a new Generator each, and one Generator object executed three times), rejection of duplicate numbers/msgtypes, and tests/fix44 vs fresh generation as declaration multisets. distinct = distinct schema texts; non-trivial = differs from a shipped schema by at least one mutation")
+	c.Rule("programs = schemas run through cmd/fixgen built from the working tree: the two shipped schemas (source/fix44.xml; generator/testdata/fix.4.4.xml with its deliberate duplicate removed) and schemas derived by a seeded mutator (remove/reorder/add/rename/renumber members and fields, remove messages, toggle required, change a type's cast, introduce duplicate field numbers or message types, add a repeating group at nesting depth 3; six fixed cast changes that cover Raw and Time), each with a relative, nested or absolute output directory. Per accepted schema three stages: (1) go build of the emitted package; (2) every constant, constructor signature, accessor signature, accessor item index and member list read back with go/parser and compared with the harness's own XML reader; (3) a behavioural driver derived from the XML (not from the emitted code) executed against the compiled package: each setter puts exactly its own tag=value on the wire, getters return it, all-populated wire order = schema order, populating constructors carry exactly the required members, group AddEntry/Entries round-trip, BeginString/MsgType. Plus byte-identical regeneration (also into a directory that already holds the reference generation, with a schema that shortens files; also 24 generations of a schema in which two components declare a group of the same name with different members), identical output across output directories (also when the generator is used as a library: one parsed schema object generated from three times with a new Generator each, and one Generator object executed three times; and a duplicate message type / field number added to the parsed document in memory: rejected at both of two attempts on one Generator, and after the duplicate was removed again that Generator and a new one emit the package of the schema), rejection of duplicate numbers/msgtypes, and tests/fix44 vs fresh generation as declaration multisets. distinct = distinct schema texts; non-trivial = differs from a shipped schema by at least one mutation")
 	c.Assume("translation validation by execution on sampled schemas; the harness's XML reader and type-mapping reader are the trusted base; mutations never touch the fields the session pipelines' typed interfaces depend on")
 	work := c.WorkDir
 	if work == "" {
@@ -628,6 +628,39 @@ func main() {
 					if !sameFiles(sets[0], fs) {
 						c.Violate("C12/library-api/output-differs-from-the-command-line-generation", fmt.Sprintf("generation #%d from one parsed schema object differs from what cmd/fixgen emits for the same schema: %s", k+1, firstDiff(sets[0], fs)), map[string]interface{}{"generation": k + 1})
 						break
+					}
+				}
+			}
+			// a duplicate added to the parsed document in memory: rejected at every attempt; after the application took it
+			// out again, the same Generator and a new one produce the package of the schema
+			os.MkdirAll(filepath.Join(lmod, "libreject"), 0o755)
+			os.WriteFile(filepath.Join(lmod, "libreject", "main.go"), []byte(librejectSource), 0o644)
+			for _, mode := range []string{"msgtype", "field"} {
+				var outs []string
+				for k := 0; k < 4; k++ {
+					outs = append(outs, filepath.Join(det, "librej-"+mode+strconv.Itoa(k), "fix44"))
+				}
+				out, err := run(lmod, "go", append([]string{"run", "./libreject", mode, schema, typesP}, outs...)...)
+				c.Count("disagreements_checked", 4)
+				c.Count("library_api_rejection_and_repair_sequences", 1)
+				replay := map[string]interface{}{"mode": mode, "output": vk.Trunc(out, 1500)}
+				if err != nil {
+					c.Violate("C12/library-api/rejection-and-repair-sequence-failed", "duplicate "+mode+" added in memory: "+vk.Trunc(out, 600), replay)
+					continue
+				}
+				for _, att := range []string{"ATTEMPT1", "ATTEMPT2"} {
+					if !strings.Contains(out, att+": rejected") {
+						c.Violate("C12/duplicate-accepted/library-api/"+mode, fmt.Sprintf("a schema object with a duplicate %s was not rejected at %s on one Generator: %s", mode, att, vk.Trunc(out, 400)), replay)
+					}
+				}
+				for k, tag := range []string{"REPAIRED-SAME-GENERATOR", "REPAIRED-NEW-GENERATOR"} {
+					if !strings.Contains(out, tag+": generated") {
+						c.Violate("C12/generator-failed-on-valid-schema/after-a-rejected-attempt", fmt.Sprintf("after the duplicate %s was taken out of the document again: %s", mode, vk.Trunc(out, 400)), replay)
+						continue
+					}
+					fs, _ := readDir(outs[2+k])
+					if !sameFiles(sets[0], fs) {
+						c.Violate("C12/library-api/output-after-a-rejected-attempt-differs", fmt.Sprintf("%s (duplicate %s rejected twice, then removed from the document): the package differs from what cmd/fixgen emits for the schema: %s", tag, mode, firstDiff(sets[0], fs)), replay)
 					}
 				}
 			}
